@@ -39,7 +39,8 @@ def _worker(job):
     t0 = time.time()
     try:
         import joserfc  # noqa: F401  (working tree under proof)
-        from pyvc import run
+        from pyvc import run, api
+        api.OPEN_FINDINGS = set(e["id"] for e in load_known_findings().get("open", []))
         mod = _load(prop)
         fn = [h for h in mod.HARNESSES if h.__name__ == hname][0]
         timeout_ms = 10000 if tier == "quick" else 60000
@@ -109,6 +110,7 @@ def main(argv=None):
     ap.add_argument("--replay", default=None)
     ap.add_argument("--setup", action="store_true")
     ap.add_argument("--only", default=None, help="comma separated harness names")
+    ap.add_argument("--write-baseline", action="store_true", help="record the obligations discharged on this (unchanged) tree")
     ap.add_argument("--jobs", type=int, default=int(os.environ.get("VERIF_JOBS", "12")))
     ap.add_argument("-v", "--verbose", action="store_true")
     args = ap.parse_args(argv)
@@ -123,7 +125,7 @@ def main(argv=None):
     _setup_paths(args.repo)
     if args.replay:
         return do_replay(prop, args.replay, args.repo)
-    return run_check(prop, args.tier, args.repo, seed, args.only, args.jobs, args.verbose)
+    return run_check(prop, args.tier, args.repo, seed, args.only, args.jobs, args.verbose, args.write_baseline)
 
 
 def setup():
@@ -155,7 +157,15 @@ def do_replay(prop, path, repo):
     return 0
 
 
-def run_check(prop, tier, repo, seed, only, jobs, verbose):
+def load_baseline(prop):
+    p = os.path.join(ROOT, "baseline", "%s.json" % prop)
+    if not os.path.exists(p):
+        return set()
+    with open(p) as f:
+        return set(tuple(x) for x in json.load(f)["proved"])
+
+
+def run_check(prop, tier, repo, seed, only, jobs, verbose, write_baseline=False):
     t0 = time.time()
     import joserfc
     repo_root = os.path.dirname(os.path.dirname(os.path.dirname(os.path.abspath(joserfc.__file__))))
@@ -179,6 +189,8 @@ def run_check(prop, tier, repo, seed, only, jobs, verbose):
     kf = load_known_findings()
     open_kf = [e for e in kf.get("open", []) if e.get("property") == prop]
 
+    baseline = load_baseline(prop)
+    regressed = {}
     obligations = []
     undecided = []
     errors = []
@@ -211,7 +223,15 @@ def run_check(prop, tier, repo, seed, only, jobs, verbose):
             be = (ob["solver"] or "?").split(":")[0]
             by_backend[be] = by_backend.get(be, 0) + 1
             if ob["status"] == "unknown":
-                undecided.append("%s / %s: solver answered unknown (%s)" % (r["name"], ob["label"], ob["solver"]))
+                key = (r["name"], ob["label"])
+                reproduced_here = any(rp["label"] == ob["label"] and rp["reproduced"] for rp in r["replays"])
+                if key in baseline and not reproduced_here:
+                    # discharged on the unchanged tree, no longer provable now: reported (brief: an obligation that
+                    # passed on the unchanged tree and now fails, with the solver's reason attached)
+                    if key not in regressed:
+                        regressed[key] = ob
+                elif not reproduced_here:
+                    undecided.append("%s / %s: solver answered unknown (%s)" % (r["name"], ob["label"], ob["solver"]))
         for rp in r["replays"]:
             violations.append((r["name"], rp))
         missing = set(getattr([h for h in harnesses if h.__name__ == r["name"]][0], "expect_covers", ())) - set(r["covers"])
@@ -252,8 +272,24 @@ def run_check(prop, tier, repo, seed, only, jobs, verbose):
             viol_lines.append("VIOLATION property=%s replay=%s" % (prop, path))
         else:
             viol_lines.append("VIOLATION property=%s replay=%s no-failing-input-found" % (prop, path))
+    for (hname, label), ob in regressed.items():
+        fname = "%s-%s-%s.json" % (prop, hname, hashlib.sha1(("regressed" + label).encode()).hexdigest()[:8])
+        path = os.path.join(ROOT, "replays", fname)
+        with open(path, "w") as f:
+            json.dump({"property": prop, "harness": hname, "label": label, "obligation": "%s / %s" % (hname, label),
+                       "inputs": None, "reproduced": False,
+                       "solver_output": "obligation discharged on the unchanged tree (baseline/%s.json) is no longer provable: %s; "
+                                        "no counter-model and no natively failing input found" % (prop, ob["solver"]),
+                       "goal": ob.get("goal"), "repo_head": head, "diff_sha": diff_sha}, f, indent=1, default=str)
+        viol_lines.append("VIOLATION property=%s replay=%s no-failing-input-found" % (prop, path))
     # prefer reproduced violations first
     viol_lines.sort(key=lambda l: l.endswith("no-failing-input-found"))
+    if write_baseline and not viol_lines and not errors and not undecided:
+        os.makedirs(os.path.join(ROOT, "baseline"), exist_ok=True)
+        proved = sorted(set((o["harness"], o["label"]) for o in obligations if o["status"] == "proved"))
+        with open(os.path.join(ROOT, "baseline", "%s.json" % prop), "w") as f:
+            json.dump({"property": prop, "repo_head": head, "proved": proved}, f, indent=1)
+        print("baseline written: %d distinct obligations" % len(proved))
 
     n_obl = len(obligations)
     n_dis = sum(1 for o in obligations if o["status"] == "proved")
